@@ -279,6 +279,58 @@ def dialect_harness(e):
     return scenario
 
 
+def object_values_harness(e):
+    """Nodes whose PROPERTY VALUES are serializable pyoak objects (code point, range): the dialect
+    and options of a deserialization call hold for every nested object of the call, whatever the
+    construction of an earlier sibling does on the way."""
+    from mashumaro.dialect import Dialect
+    from models.zoo import VAt, VBin, VMany
+    from pyoak.origin import CodePoint, CodeRange
+
+    reset_all()
+
+    class HexInts(Dialect):
+        serialization_strategy = {int: {"serialize": lambda v: hex(v), "deserialize": lambda s: int(str(s), 16)}}
+
+    order = e.pick(["object-valued-node-first", "object-valued-node-last", "nested"], "order")
+    a = lambda k: VAt(at=CodePoint(k, 1, k), span=CodeRange(CodePoint(k, 1, k), CodePoint(k + 2, 1, k + 2)), blob=bytes([k, 200 + k]))  # noqa: E731
+    b = lambda k: VBin(blob=bytes([255 - k, k]))  # noqa: E731
+    if order == "object-valued-node-first":
+        root = VMany(items=(a(1), b(2), a(3), b(4)))
+    elif order == "object-valued-node-last":
+        root = VMany(items=(b(1), b(2), a(3)))
+    else:
+        root = VAt(at=CodePoint(5, 1, 5), blob=b"\x01\xfe", kid=VMany(items=(VAt(at=CodePoint(6, 1, 6), kid=b(7)), b(8))))
+    front = e.pick(["msgpack", "as_dict+user-dialect", "yaml+user-dialect"], "front_end")
+    snap = [(type(i.node).__name__, getattr(i.node, "blob", None), getattr(i.node, "at", None), getattr(i.node, "span", None)) for i in root.dfs()]
+    cls = type(root)
+    if front == "msgpack":
+        data = root.to_msgpck()
+    elif front == "as_dict+user-dialect":
+        data = root.as_dict(mashumaro_dialect=HexInts)
+    else:
+        data = root.to_yaml(mashumaro_dialect=HexInts)
+    root.detach()
+    del root
+    scenario = {"order": order, "front_end": front}
+    try:
+        if front == "msgpack":
+            back = cls.from_msgpck(data)
+        elif front == "as_dict+user-dialect":
+            back = cls.as_obj(data, mashumaro_dialect=HexInts)
+        else:
+            back = cls.from_yaml(data, mashumaro_dialect=HexInts)
+    except Exception as ex:  # noqa: BLE001
+        scenario.update(raised=f"{type(ex).__name__}: {ex}"[:240])
+        e.fail("dialect-does-not-reach-nested-object", scenario=scenario)
+    got = [(type(i.node).__name__, getattr(i.node, "blob", None), getattr(i.node, "at", None), getattr(i.node, "span", None)) for i in back.dfs()]
+    if got != snap or not _slots_default():
+        scenario.update(got=repr(got)[:300], expected=repr(snap)[:300])
+        e.fail("dialect-does-not-reach-nested-object", scenario=scenario)
+    e.distinct((order, front))
+    return scenario
+
+
 def user_dialect_harness(e):
     """A mashumaro dialect given to one call (here: one that writes every int as a tagged string)
     reaches every nested object of that call -- nodes, origins, positions, code points -- and
@@ -387,6 +439,7 @@ def spec(tier: str, seed: int) -> Spec:
     states = ["all-registered", "cleared", "cleared-then-new-parent-with-a-registered-source"]
     fams += [Family(f"source-registry-state-{k}", make_harness(1, k, None, [0, 3], states), variables=var + "; selector: which of the tree's sources are in the source registry") for k in (SER if tier != "quick" else ["as_dict", "to_json"])]
     fams.append(Family("user-mashumaro-dialect", user_dialect_harness, variables="selectors: tree, call"))
+    fams.append(Family("property-values-that-are-serializable-objects", object_values_harness, variables="selectors: sibling order, front-end / dialect"))
     fams.append(Family("msgpack-dialect-on-nested-objects", dialect_harness, variables="selectors: nesting depth, tagged / untagged input"))
     return Spec(
         families=fams,
